@@ -266,12 +266,122 @@ def run_placeholder(rep: Report, tier: str, seed: int, future) -> None:
     rep.sample(next(r for r in items if sum(1 for g in r["segs"] if g["t"] == "templated") >= 2))
 
 
+# ------------------------------------------------------------------ python, code -> spec (longer sources)
+LONG_PLAIN = {"a": "col_a", "tbl": "T1x", "col_1": "c_one", "s": "ess"}
+LONG_DOTTED = {"a.b": "dotAB", "x.y.z": "xyz_v"}
+LONG_LITS = ["SELECT ", "a.b", " FROM ", "t1", ", ", "x: y", "1.5", " -- hi!\n", "WHERE c = ", "'", " ", "\n", "é", "(", ")"]
+LONG_VALID = [("{a}", ""), ("{tbl}", ""), ("{col_1}", ""), ("{s}", ""), ("{a!s}", "conv"), ("{a:s}", "spec"),
+              ("{a:}", "emptyspec"), ("{a.b}", "dotted"), ("{x.y.z}", "dotted"), ("{a.b:s}", "dotted,spec"),
+              ("{a.b!s}", "conv,dotconv,dotted"), ("{a.b:}", "dotted,emptyspec"), ("{{", "esc"), ("}}", "esc")]
+LONG_INVALID = ["{", "}", "{}", "{0}", "{zz}", "{a b}", "{a!x}", "{a:zz}", "{a.}", "{q.r}", "{a!s", "{a:{a}}", "{a!}", "{ a}",
+                "{a!s s}", "{.a}"]
+_CLS = {"{": "LB", "}": "RB", ".": "DOT", ":": "COL", "!": "BANG"}
+
+
+def _cls(ch: str) -> str:
+    if ch in "[]":
+        raise MachineryError("the format-string machine does not model '[' / ']'")
+    return _CLS.get(ch) or ("N" if (ch.isalnum() and ch.isascii()) or ch == "_" else "O")
+
+
+def gen_long(seed: int, n: int):
+    """Seeded longer format strings: (text, shape tags as in Render!PyShape, has an invalid part)."""
+    rnd = random.Random(seed ^ 0xC09)
+    out, seen = [], set()
+    while len(out) < n:
+        k = rnd.randint(2, 8)
+        parts, tags = [], set()
+        for _ in range(k):
+            r = rnd.random()
+            if r < 0.4:
+                lit = rnd.choice(LONG_LITS)
+                parts.append(lit)
+                if "." in lit:
+                    tags.add("dotlit")
+            else:
+                tok, tg = rnd.choice(LONG_VALID)
+                parts.append(tok)
+                tags.update(x for x in tg.split(",") if x)
+        bad = rnd.random() < 0.3
+        if bad:
+            parts.insert(rnd.randrange(len(parts) + 1), rnd.choice(LONG_INVALID))
+        text = "".join(parts)
+        if text in seen:
+            continue
+        seen.add(text)
+        out.append((text, ",".join(sorted(tags)) or "plain", bad))
+    return out
+
+
+def _cps(txt: str):
+    return [ord(c) for c in txt]
+
+
+def _long_chunk(arg):
+    ctx_real = dict(LONG_PLAIN, sqlfluff=dict(LONG_DOTTED))
+    flat = [{"name": _cps(k), "val": _cps(v)} for k, v in list(LONG_PLAIN.items()) + list(LONG_DOTTED.items())]
+    out = []
+    for idx, (text, shape, bad) in arg:
+        base = {"ev": "PyFormat", "cls": [_cls(c) for c in text], "chr": _cps(text), "ctx": flat}
+        kind, rendered, info, _tf = R.real_python(text, ctx_real)
+        ev = dict(base, outcome={"render": "render", "tmp": "tmp", "exc": "exc"}[kind],
+                  out=_cps(rendered) if kind == "render" else [])
+        ref, _referr = R.ref_format(text, ctx_real)
+        twin = dict(base, outcome="render" if ref is not None else "tmp", out=_cps(ref) if ref is not None else [])
+        out.append(({"id": f"py{idx}", "events": [ev]}, {"id": f"fx{idx}", "events": [twin]},
+                    {"text": text, "shape": shape, "kind": kind, "info": info, "rendered": rendered, "ref": ref}))
+    return out
+
+
+def run_long(rep: Report, tier: str, seed: int) -> None:
+    from ..tlc import validate_traces
+    from .c08 import TRACE_CONSTS
+
+    cases = list(enumerate(gen_long(seed, 1500 if tier == "quick" else 12000)))
+    chunks = [cases[i:i + 250] for i in range(0, len(cases), 250)]
+    impl, twin, meta = [], [], {}
+    for part in pmap(_long_chunk, chunks, chunksize=1):
+        for a, b, mt in part:
+            impl.append(a)
+            twin.append(b)
+            meta[a["id"]] = mt
+    rep.evaluated(len(impl))
+    tv = validate_traces("RenderTrace", twin, constants=TRACE_CONSTS, batch=20000)
+    if tv.rejected:
+        r = tv.rejected[0]
+        raise MachineryError(f"Render.tla (py) disagrees with string.Formatter on {meta['py' + r['id'][2:]]['text']!r}: {r['clause']}")
+    rep.extra["python_long"] = {"cases": len(impl), "formatter_twin_traces_accepted": tv.accepted}
+    val = validate_traces("RenderTrace", impl, constants=TRACE_CONSTS, batch=20000)
+    rep.validation(val, "RenderTrace")
+    for r in val.rejected:
+        mt = meta[r["id"]]
+        sig = {"part": "python", "entry": "process", "shape": mt["shape"]}
+        if mt["kind"] == "exc":
+            sig.update(outcome="exception", exc=mt["info"]["exc"], site=mt["info"]["site"])
+        elif mt["kind"] == "tmp":
+            sig.update(outcome="templater-error")
+        else:
+            sig.update(outcome="wrong-text" if r["clause"] == "RenderedEqualsFormat" else "rendered")
+        if r["clause"] == "InvalidGivesTemplaterError":
+            sig.pop("shape")
+        rep.violation(r["clause"], sig,
+                      f"generated format string {mt['text']!r}: sqlfluff -> {mt['kind']} {mt['rendered']!r} {mt['info']}; "
+                      f"str.format -> {mt['ref']!r}; RenderTrace rejects with {r['clause']}",
+                      {"part": "python-long", "text": mt["text"], "shape": mt["shape"]})
+    for a in impl:
+        mt = meta[a["id"]]
+        if mt["text"].count("{") - 2 * mt["text"].count("{{") >= 2:
+            rep.nontrivial("L" + mt["text"])
+    rep.sample({"long_case": meta[impl[0]["id"]]["text"], "event": {k: v for k, v in impl[0]["events"][0].items() if k != "ctx"}})
+
+
 # ------------------------------------------------------------------------------------------- entry
 def run(tier: str, seed: int) -> int:
     rep = Report(PROP, tier, seed, "model_checking")
     py, ph = start_models(tier)
     run_python(rep, tier, seed, py)
     run_placeholder(rep, tier, seed, ph)
+    run_long(rep, tier, seed)
     rep.exhaustive = True
     rep.rule = ("TLC enumerates every string up to the bound (python: 7 character classes; placeholder: each style's "
                 "alphabet of 4-6 classes); python non-trivial = the string contains a brace, placeholder non-trivial = the "
@@ -286,7 +396,18 @@ def run(tier: str, seed: int) -> int:
 
 def replay(path, tier, seed):
     case = json.load(open(path))["case"]
-    rec = case["rec"]
+    if case["part"] == "python-long":
+        from ..tlc import validate_traces
+        from .c08 import TRACE_CONSTS
+        a, _b, mt = _long_chunk([(0, (case["text"], case["shape"], False))])[0]
+        val = validate_traces("RenderTrace", [a], constants=TRACE_CONSTS)
+        if val.rejected:
+            print(f"VIOLATION property={PROP} replay={path}")
+            print(f"  clause={val.rejected[0]['clause']} {mt['text']!r} -> {mt['kind']} {mt['info']}")
+            return 1
+        print("replay: behaviour now satisfies the contract")
+        return 0
+    rec = case.get("rec")
     if case["part"] == "python":
         ctx = R.py_context(max(7, len(rec["s"])))
         vs = py_case(rec, case["other"], ctx, via_linter=case.get("via_linter", False))
